@@ -1,5 +1,6 @@
 ----------------------------- MODULE MC_Histogram -----------------------------
 EXTENDS Histogram
-MCBounds == @BOUNDS@
+MCCBounds == @CBOUNDS@
+MCRouteSet == @ROUTESET@
 MCVals == @VALS@
 =============================================================================
